@@ -10,7 +10,9 @@
 //           fail, as top machine and as sub-machine.  weight = #states + #routes + #guards + #handlers +
 //           [explicit init] + [terminal defined] + weight of every sub-machine.  Canonical form: all states
 //           reachable from the initial state and numbered in discovery order; first specific event is event 1.
-//           Every run() carries a payload pointer (Event::extra); every token records whether it arrived.
+//           Before its first newState() every machine is started once: must fail and leave nothing behind.
+//           run(1) carries a payload pointer (Event::extra), run(2) uses the one-argument Event(id); every token
+//           records the payload it saw and, for callbacks of sub-machines, the observers of every ancestor.
 // LANES     (environment, one per process group; see check.py)
 //           C16_TERM_LATE    terminal state 0 and setInitState issued AFTER states/routes/handlers
 //           C16_BAD_HANDLER  declining handlers return 9 (names no state) instead of -1
@@ -20,16 +22,23 @@
 //                            handlers, sub-machines, setInitState, callback (definition continues after a run)
 //           C16_ENUM         every definition call, run() and observer goes through the templated enum overloads
 //           C16_TWO_HANDLERS a state with a handler for event e also has a declining handler for the other event
+//           C16_IDMAP        ids handed to the library are translated (states 1000, 7, INT_MAX; events 65537, -5):
+//                            sparse, negative, first-registered/initial state is not the lowest key; model unchanged
+//           C16_SHARE_SUB    states of one machine with equal sub-machine definitions share ONE instance
+//                            (argv filter "share" selects the machines that have such a pair)
 // HISTORIES per machine, breadth-first over call sequences {start, run(1), run(2), stop, restart} x
 //           {plain, every action of the machine issues <inner call> on its own machine; inner calls are the five
 //           life-cycle calls and "newState/addRoute/addEvent/setSubStateMachine with valid arguments"} + the op
 //           "definition calls the reference rejects in any phase" (duplicate newState, unknown from/to state,
-//           routes/handlers/sub-machine on a state 0 that was never created) on every machine (35 ops), depth L,
+//           routes/handlers/sub-machine on a state 0 that was never created) on every machine (35 ops) + where the
+//           hierarchy has a machine that cannot start: "setInitState(1) on those that are stopped" (a failed
+//           start() followed by a successful one), depth L,
 //           deduplicated on the observers of every machine of the hierarchy + guard flip-flop parity + ledger.
 //           The same must-fail definition calls are issued once after every build.
 //           EPILOGUE: every evaluated history (also the deduplicated and the depth-limit ones) is followed by
-//           restart; stop on the real hierarchy and the reference, judged by all oracles (hidden state that the
-//           key cannot see must not change the future; the ledger is judged for every history).
+//           restart; stop on the outermost machine, then start(); stop() called directly on every other machine,
+//           on the real hierarchy and the reference, judged by all oracles (hidden state that the key cannot see,
+//           in any machine, must not change the future; the ledger is judged for every history).
 // ORACLE    (1) reference interpreter (struct Ref) step by step: identical trace of guard evaluations,
 //           handler calls, exit/route/enter actions, state-changed notifications (each token carries the
 //           event id and currentState/lastState/nextState/isRunning/isTerminated as seen INSIDE the action),
@@ -52,7 +61,7 @@
 //   R5 lastState() survives stop()/start() (header silent; not demanded otherwise): Ref mirrors the code.
 //   R6 self transitions are external (exit + enter).
 //
-// argv: <part> <nparts> <machine cap> <seq depth> <max nesting depth> [<file for trace hashes>|-] [flat|deep]   (deep: only machines of nesting depth 3)
+// argv: <part> <nparts> <machine cap> <seq depth> <max nesting depth> [<file for trace hashes>|-] [flat|deep|share]   (deep: only machines of nesting depth 3; share: only machines with two states of equal sub-machine definition)
 //       merge <hash files...>   (prints the number of distinct trace hashes over all processes)
 #include "hist/hist.h"
 #include <tbox/flow/state_machine.h>
@@ -167,15 +176,15 @@ static std::string show_mach(const MachD &m) {
 
 // ------------------------------------------------------------------------------------------------
 // lanes (see the head of this file)
-static int L_NULLS = 0; static bool L_TERM_LATE = false, L_BAD_HANDLER = false, L_TWO_PHASE = false, L_ENUM = false, L_TWO_H = false;
+static int L_NULLS = 0; static bool L_TERM_LATE = false, L_BAD_HANDLER = false, L_TWO_PHASE = false, L_ENUM = false, L_TWO_H = false, L_IDMAP = false, L_SHARE = false;
 static void read_lanes() {
   if (getenv("C16_NULLS")) L_NULLS = atoi(getenv("C16_NULLS"));
   L_TERM_LATE = getenv("C16_TERM_LATE") != nullptr; L_BAD_HANDLER = getenv("C16_BAD_HANDLER") != nullptr; L_TWO_PHASE = getenv("C16_TWO_PHASE") != nullptr;
-  L_ENUM = getenv("C16_ENUM") != nullptr; L_TWO_H = getenv("C16_TWO_HANDLERS") != nullptr;
+  L_ENUM = getenv("C16_ENUM") != nullptr; L_TWO_H = getenv("C16_TWO_HANDLERS") != nullptr; L_IDMAP = getenv("C16_IDMAP") != nullptr; L_SHARE = getenv("C16_SHARE_SUB") != nullptr;
   if (L_BAD_HANDLER && L_TWO_H) { printf("@VIOL sig=harness-lanes-not-combinable :: C16_BAD_HANDLER with C16_TWO_HANDLERS\n"); exit(0); }
 }
 static std::string lanes_text() { std::string s; if (L_TERM_LATE) s += " term+init-late"; if (L_BAD_HANDLER) s += " bad-handler"; if (L_NULLS) s += " nulls=" + std::to_string(L_NULLS); if (L_TWO_PHASE) s += " two-phase";
-  if (L_ENUM) s += " enum-overloads"; if (L_TWO_H) s += " two-handlers"; return s.empty() ? " main" : s; }
+  if (L_ENUM) s += " enum-overloads"; if (L_TWO_H) s += " two-handlers"; if (L_IDMAP) s += " idmap"; if (L_SHARE) s += " shared-sub-machine"; return s.empty() ? " main" : s; }
 // which callbacks of the definition are nullptr / not set in this lane (decided by the harness, used by the builder and the reference)
 static bool null_hook(int k, char kind, int st, int rt) {
   if (L_NULLS == 0 || kind == 'g' || kind == 'h') return false;
@@ -189,25 +198,35 @@ static bool null_hook(int k, char kind, int st, int rt) {
 
 // the templated enum overloads of state_machine.h (lane C16_ENUM) - same calls, same meaning
 enum class St : int {}; enum class Ev : int {};
-static int g_cookie;                                       // payload of every run(): Event::extra == &g_cookie
-static bool NS(StateMachine *m, int s, const StateMachine::ActionFunc &en, const StateMachine::ActionFunc &ex) { return L_ENUM ? m->newState(static_cast<St>(s), en, ex) : m->newState(s, en, ex); }
-static bool AR(StateMachine *m, int f, int e, int t, const StateMachine::GuardFunc &g, const StateMachine::ActionFunc &a) { return L_ENUM ? m->addRoute(static_cast<St>(f), static_cast<Ev>(e), static_cast<St>(t), g, a) : m->addRoute(f, e, t, g, a); }
-static bool AE(StateMachine *m, int s, int e, const StateMachine::EventFunc &f) { return L_ENUM ? m->addEvent(static_cast<St>(s), static_cast<Ev>(e), f) : m->addEvent(s, e, f); }
-static void SI(StateMachine *m, int s) { if (L_ENUM) m->setInitState(static_cast<St>(s)); else m->setInitState(s); }
-static bool SS(StateMachine *m, int s, StateMachine *sub) { return L_ENUM ? m->setSubStateMachine(static_cast<St>(s), sub) : m->setSubStateMachine(s, sub); }
-static bool RUN(StateMachine *m, int e) { return L_ENUM ? m->run(Event(static_cast<Ev>(e), &g_cookie)) : m->run(Event(e, &g_cookie)); }
-static int CUR(const StateMachine *m) { return L_ENUM ? static_cast<int>(m->currentState<St>()) : m->currentState(); }
-static int LAST(const StateMachine *m) { return L_ENUM ? static_cast<int>(m->lastState<St>()) : m->lastState(); }
-static int NEXT(const StateMachine *m) { return L_ENUM ? static_cast<int>(m->nextState<St>()) : m->nextState(); }
+static int g_cookie;                                       // payload of run(1): Event::extra == &g_cookie; run(2) uses the one-argument Event(id)
+// lane C16_IDMAP: the ids the library sees are sparse, unordered, negative or INT_MAX; the model keeps 1,2,3 / 1,2.
+// state 1 -> 1000, 2 -> 7, 3 -> INT_MAX (first registered / initial state is NOT the lowest key); ids that name no state (5,7,9) -> id*100001;
+// event 1 -> 65537, 2 -> -5; 0 (terminal state / any event) and -1 (no state) are fixed by the header and stay.
+static int SID(int s) { if (!L_IDMAP || s <= 0) return s; return s == 1 ? 1000 : s == 2 ? 7 : s == 3 ? 2147483647 : s * 100001; }
+static int EID(int e) { if (!L_IDMAP || e == 0) return e; return e == 1 ? 65537 : e == 2 ? -5 : e * 100001; }
+static int SID_BACK(int s) { if (!L_IDMAP || s == 0 || s == -1) return s; return s == 1000 ? 1 : s == 7 ? 2 : s == 2147483647 ? 3 : 77; }   // 77: an id the harness never handed out
+static int EID_BACK(int e) { if (!L_IDMAP || e == 0) return e; return e == 65537 ? 1 : e == -5 ? 2 : 77; }
+static bool NS(StateMachine *m, int s, const StateMachine::ActionFunc &en, const StateMachine::ActionFunc &ex) { s = SID(s); return L_ENUM ? m->newState(static_cast<St>(s), en, ex) : m->newState(s, en, ex); }
+static bool AR(StateMachine *m, int f, int e, int t, const StateMachine::GuardFunc &g, const StateMachine::ActionFunc &a) { f = SID(f); e = EID(e); t = SID(t); return L_ENUM ? m->addRoute(static_cast<St>(f), static_cast<Ev>(e), static_cast<St>(t), g, a) : m->addRoute(f, e, t, g, a); }
+static bool AE(StateMachine *m, int s, int e, const StateMachine::EventFunc &f) { s = SID(s); e = EID(e); return L_ENUM ? m->addEvent(static_cast<St>(s), static_cast<Ev>(e), f) : m->addEvent(s, e, f); }
+static void SI(StateMachine *m, int s) { s = SID(s); if (L_ENUM) m->setInitState(static_cast<St>(s)); else m->setInitState(s); }
+static bool SS(StateMachine *m, int s, StateMachine *sub) { s = SID(s); return L_ENUM ? m->setSubStateMachine(static_cast<St>(s), sub) : m->setSubStateMachine(s, sub); }
+static bool RUN(StateMachine *m, int e) { bool payload = e == 1; e = EID(e);     // run(1): Event(id, payload*); run(2): Event(id), the constructor ordinary callers use
+  if (payload) return L_ENUM ? m->run(Event(static_cast<Ev>(e), &g_cookie)) : m->run(Event(e, &g_cookie));
+  return L_ENUM ? m->run(Event(static_cast<Ev>(e))) : m->run(e); }
+static int CUR(const StateMachine *m) { return SID_BACK(L_ENUM ? static_cast<int>(m->currentState<St>()) : m->currentState()); }
+static int LAST(const StateMachine *m) { return SID_BACK(L_ENUM ? static_cast<int>(m->lastState<St>()) : m->lastState()); }
+static int NEXT(const StateMachine *m) { return SID_BACK(L_ENUM ? static_cast<int>(m->nextState<St>()) : m->nextState()); }
 
 // ------------------------------------------------------------------------------------------------
 // one instantiated hierarchy: nodes in pre-order, node 0 = outermost machine
 struct Node { int def, parent, depth; int sub[4]; };
 struct Hook { int node; char kind; int state, route; };   // kind n enter, x exit, a route action, g guard, h handler, c changed
 struct HookIdx { int en[4], ex[4], g[4][3], a[4][3], hs[4], ha[4], h2[4]; };   // indices into G.hooks per machine (state 0..3)
-enum { START, RUN1, RUN2, STOP, RESTART, DEFBAD };        // DEFBAD: definition calls the reference rejects in every phase, on every machine
+enum { START, RUN1, RUN2, STOP, RESTART, DEFBAD, SETINIT };   // DEFBAD: definition calls the reference rejects in every phase, on every machine
+                                                               // SETINIT: setInitState(1) on every stopped machine of the hierarchy whose initial state does not exist (it can start from then on)
 enum { RDEF = 5 };                                          // inner call kind 5: newState/addRoute/addEvent/setSubStateMachine with valid arguments
-static const char *CALLN[] = {"start", "run(1)", "run(2)", "stop", "restart", "rejected-definition-calls"};
+static const char *CALLN[] = {"start", "run(1)", "run(2)", "stop", "restart", "rejected-definition-calls", "setInitState(1)-on-the-stopped-machines-that-could-not-start"};
 static const char *REENTN[] = {"start", "run(1)", "run(2)", "stop", "restart", "newState/addRoute/addEvent/setSubStateMachine"};
 static const char *KINDN(char k) { return k == 'n' ? "enter" : k == 'x' ? "exit" : k == 'a' ? "route" : k == 'g' ? "guard" : k == 'h' ? "handler" : k == 'G' ? "action-of-a-rejected-definition" : "changed"; }
 struct Op { int call, reent; };   // reent: -1 none, else inner call issued from every action on its own machine
@@ -221,9 +240,16 @@ struct Ctx {
 
 static void add_nodes(int def, int parent, int depth) {
   int k = (int)G.nodes.size(); G.nodes.push_back(Node{def, parent, depth, {-1, -1, -1, -1}});
-  for (int s = 1; s <= TAB[def].n; s++) if (TAB[def].st[s - 1].sub >= 0) { int c = (int)G.nodes.size(); add_nodes(TAB[def].st[s - 1].sub, k, depth + 1); G.nodes[k].sub[s] = c; }
+  for (int s = 1; s <= TAB[def].n; s++) if (TAB[def].st[s - 1].sub >= 0) {
+    // lane C16_SHARE_SUB: states of one machine whose sub-machine definitions are equal are given ONE StateMachine instance (setSubStateMachine with the same pointer)
+    int shared = -1; if (L_SHARE) for (int s0 = 1; s0 < s; s0++) if (TAB[def].st[s0 - 1].sub == TAB[def].st[s - 1].sub) shared = G.nodes[k].sub[s0];
+    if (shared >= 0) { G.nodes[k].sub[s] = shared; continue; }
+    int c = (int)G.nodes.size(); add_nodes(TAB[def].st[s - 1].sub, k, depth + 1); G.nodes[k].sub[s] = c; }
 }
-static void put_int(std::string &s, int v) { if (v < 0) { s += '-'; v = -v; } s += char('0' + v); }
+static bool has_shared_sub(int def) { const MachD &d = TAB[def];
+  for (int s = 1; s <= d.n; s++) if (d.st[s - 1].sub >= 0) { for (int s0 = 1; s0 < s; s0++) if (d.st[s0 - 1].sub == d.st[s - 1].sub) return true; if (has_shared_sub(d.st[s - 1].sub)) return true; }
+  return false; }
+static void put_int(std::string &s, int v) { if (v < 0) { s += '-'; v = -v; } if (v > 9) s += std::to_string(v); else s += char('0' + v); }
 // payload mark: '+' = the payload pointer of run() arrived, nothing = no payload (start/stop pass Event()), '?' = some other pointer
 static void token(int node, char kind, int st, int rt, int ev, char payload, int cur, int last, int next, bool run, bool term) {
   std::string &s = G.tr; s += char('a' + node); s += kind; put_int(s, st); if (rt >= 0 || kind == 'c') { s += kind == 'c' ? '>' : '.'; put_int(s, rt); }
@@ -236,7 +262,7 @@ static bool ledgered(int k, int st) { return !null_hook(k, 'n', st, -1) && !null
 
 // callbacks handed to definition calls that must be rejected: if one ever runs, the trace shows it
 static StateMachine::ActionFunc ghost_action(int node) { return [node](Event) { G.tr += char('a' + node); G.tr += "G-action-of-a-rejected-definition-call-ran "; }; }
-static StateMachine::EventFunc ghost_handler(int node) { return [node](Event) { G.tr += char('a' + node); G.tr += "G-handler-of-a-rejected-definition-call-ran "; return 1; }; }
+static StateMachine::EventFunc ghost_handler(int node) { return [node](Event) { G.tr += char('a' + node); G.tr += "G-handler-of-a-rejected-definition-call-ran "; return SID(1); }; }
 // Definition calls the reference rejects whatever the phase (before start, running, stopped): returns the first one that was accepted.
 // A state exists when newState() created it; state 0 that was never created is only a route target / handler result, not a state
 // that can carry routes, handlers or a sub-machine (state_machine.h: "from_state_id, to_state_id: fails when the state does not exist").
@@ -269,7 +295,8 @@ static std::string inner_defs(int node) {
 // ---- real side: every callback of every generated machine ends here
 static void real_hook(const Hook *h, Event e) {
   StateMachine *m = G.sm[h->node];
-  token(h->node, h->kind, h->state, h->route, e.id, e.extra == &g_cookie ? '+' : e.extra == nullptr ? 0 : '?', CUR(m), LAST(m), NEXT(m), m->isRunning(), m->isTerminated());
+  token(h->node, h->kind, h->state, h->route, EID_BACK(e.id), e.extra == &g_cookie ? '+' : e.extra == nullptr ? 0 : '?', CUR(m), LAST(m), NEXT(m), m->isRunning(), m->isTerminated());
+  for (int a = G.nodes[h->node].parent; a >= 0; a = G.nodes[a].parent) { G.tr += '^'; G.tr += obs_real(a); }    // what every ancestor reports while this callback runs
   if (h->kind == 'n') {
     if (h->node == 0 && G.in_restart && G.reent_depth == 0) { std::string w; if (!ledger_zero(&w) && G.balance_viol.empty()) G.balance_viol = "outermost machine was stopped inside restart() with entered-but-not-exited states:" + w; }
     if (ledgered(h->node, h->state)) G.cnt[h->node][h->state]++;
@@ -279,7 +306,7 @@ static void real_hook(const Hook *h, Event e) {
   if (G.reent >= 0 && G.reent_depth == 0) {
     G.reent_depth++;
     std::string snap = obs_real(h->node), what; size_t len = G.tr.size(); int r = -1;
-    switch (G.reent) { case START: r = m->start(); break; case RUN1: r = m->run(1); break; case RUN2: r = m->run(2); break; case STOP: m->stop(); break; case RESTART: r = m->restart(); break;
+    switch (G.reent) { case START: r = m->start(); break; case RUN1: r = m->run(EID(1)); break; case RUN2: r = m->run(EID(2)); break; case STOP: m->stop(); break; case RESTART: r = m->restart(); break;
                        case RDEF: what = inner_defs(h->node); r = what.empty() ? 0 : 1; break; }
     bool changed = obs_real(h->node) != snap || G.tr.size() != len;
     if ((r == 1 || changed) && G.reent_viol.empty())
@@ -302,7 +329,7 @@ static void make_hooks() {
       if (S.h_any != -2) x.ha[s] = add(n, 'h', s, 0); } }
 }
 static StateMachine::ActionFunc mk_action(int hi) { if (hi < 0) return nullptr; const Hook *h = &G.hooks[hi]; return [h](Event e) { real_hook(h, e); G.tr += ' '; }; }
-static StateMachine::EventFunc mk_handler(int hi, int ret) { const Hook *h = &G.hooks[hi]; return [h, ret](Event e) { real_hook(h, e); G.tr += ' '; return ret; }; }
+static StateMachine::EventFunc mk_handler(int hi, int ret) { const Hook *h = &G.hooks[hi]; ret = SID(ret); return [h, ret](Event e) { real_hook(h, e); G.tr += ' '; return ret; }; }
 
 struct Ref; extern Ref REF;
 static std::string prelude_two_phase();
@@ -314,6 +341,10 @@ static std::string build_real() {
   for (auto *p : G.sm) delete p; G.sm.clear(); delete G.spare;
   G.spare = new StateMachine; G.spare->newState(1, ghost_action(15), ghost_action(15));
   for (size_t k = 0; k < G.nodes.size(); k++) G.sm.push_back(new StateMachine);
+  // a machine without any state has no initial state: start() fails, nothing runs, it is not running - and the failure leaves nothing behind
+  // (every one of these machines is started successfully later, unless its definition names an initial state that does not exist)
+  for (size_t k = 0; k < G.nodes.size(); k++) { size_t len = G.tr.size(); bool r = G.sm[k]->start();
+    if (r || G.tr.size() != len || obs_real((int)k) != "-1,-1,-1S") return std::string("diverge-start-on-a-machine-without-states ret=") + (r ? "1" : "0") + " observers=" + obs_real((int)k) + " (expected ret=0 -1,-1,-1S)"; }
   bool ok = true;
   for (int phase = L_TWO_PHASE ? 1 : 0; phase <= (L_TWO_PHASE ? 2 : 0); phase++) {
     for (size_t k = 0; k < G.nodes.size(); k++) {
@@ -331,7 +362,7 @@ static std::string build_real() {
           if (S.h_ev) ok &= AE(m, s, (int)S.h_ev, mk_handler(x.hs[s], (L_BAD_HANDLER && S.h_ret == -1) ? 9 : S.h_ret));
           if (S.h_any != -2) ok &= AE(m, s, 0, mk_handler(x.ha[s], (L_BAD_HANDLER && S.h_any == -1) ? 9 : S.h_any));
           if (G.nodes[k].sub[s] >= 0) ok &= SS(m, s, G.sm[G.nodes[k].sub[s]]); } };
-      auto cb = [&] { if (!null_hook(node, 'c', 0, 0)) m->setStateChangedCallback([node](int f, int t, Event e) { Hook hc{node, 'c', f, t}; real_hook(&hc, e); G.tr += ' '; }); };
+      auto cb = [&] { if (!null_hook(node, 'c', 0, 0)) m->setStateChangedCallback([node](int f, int t, Event e) { Hook hc{node, 'c', SID_BACK(f), SID_BACK(t)}; real_hook(&hc, e); G.tr += ' '; }); };
       if (phase == 0) { if (!L_TERM_LATE) { init(); states(); term(); rest(); } else { states(); rest(); term(); init(); } cb(); }
       else if (phase == 1) states();
       else { term(); rest(); init(); cb(); }
@@ -348,15 +379,17 @@ static std::string build_real() {
 // ------------------------------------------------------------------------------------------------
 // REFERENCE INTERPRETER: written from state_machine.h + the C16 statement + readings R1..R6 above.
 struct Ref {
-  int cur[16], last[16], next[16]; bool running[16];
-  void reset() { for (int i = 0; i < 16; i++) { cur[i] = last[i] = next[i] = -1; running[i] = false; } }
+  int cur[16], last[16], next[16]; bool running[16], init_fixed[16];
+  void reset() { for (int i = 0; i < 16; i++) { cur[i] = last[i] = next[i] = -1; running[i] = init_fixed[i] = false; } }
+  bool unstartable(int k) const { return def(k).init_explicit >= 2 && !init_fixed[k]; }
   const MachD &def(int k) const { return TAB[G.nodes[k].def]; }
   // during the prelude of lane C16_TWO_PHASE only the states exist: no sub-machines, initial state = first registered state
   int sub_of(int k, int st) const { return G.prelude ? -1 : G.nodes[k].sub[st]; }
-  int init_state(int k) const { const MachD &d = def(k); if (G.prelude) return d.init_explicit == 1 ? d.n : 1; return d.init_explicit >= 2 ? -1 : 1; }   // -1: the initial state does not exist
+  int init_state(int k) const { const MachD &d = def(k); if (G.prelude) return d.init_explicit == 1 ? d.n : 1; return unstartable(k) ? -1 : 1; }   // -1: the initial state does not exist
   void act(int k, char kind, int st, int rt, int ev) {      // an observable action of machine k
     if (null_hook(k, kind, st, rt)) return;                  // no such callback in this lane: nothing observable (and nobody to make an inner call)
-    token(k, kind, st, rt, ev, ev != 0 ? '+' : 0, cur[k], last[k], next[k], running[k], cur[k] == 0);   // run(e, payload) hands the payload to every callback of the hierarchy; start/stop pass Event()
+    token(k, kind, st, rt, ev, ev == 1 ? '+' : 0, cur[k], last[k], next[k], running[k], cur[k] == 0);   // run(1, payload) hands the payload to every callback of the hierarchy; run(2) has none; start/stop pass Event()
+    for (int a = G.nodes[k].parent; a >= 0; a = G.nodes[a].parent) { G.tr += '^'; G.tr += obs(a); }      // the ancestors as the model has them at this moment
     if (G.reent >= 0) { G.tr += '!'; G.tr += G.reent == STOP ? '-' : '0'; }    // calls from inside an action are rejected, nothing happens
     if (kind != 'g') G.tr += ' ';
   }
@@ -431,13 +464,14 @@ static int tok_depth(const std::string &t) { int n = t[0] - 'a'; return n >= 0 &
 // number of exit / enter actions of sub-machines (nodes b,c,..) in a trace segment
 static int count_sub(const std::string &tr, char kind) { int c = 0; size_t p = 0; while (p < tr.size()) { size_t q = tr.find(' ', p); if (q == std::string::npos) q = tr.size(); if (q > p + 1 && tr[p] != 'a' && tr[p + 1] == kind) c++; p = q + 1; } return c; }
 
+static std::string anc_part(const std::string &t) { size_t p = t.find('^'); if (p == std::string::npos) return ""; size_t q = t.find_first_of("!=", p); return t.substr(p, q == std::string::npos ? q : q - p); }
 struct EvalOut { std::string canon, viol; uint64_t trace_hash; std::string trace; };
 static bool g_keep_trace = false;
 static std::map<std::string, size_t> g_sigcount;   // violations per signature in this process
 
 // every history is followed by this fixed epilogue (not part of the state key, the trace hash or the history that is expanded)
-static const Op EPILOGUE[] = {{RESTART, -1}, {STOP, -1}};
-static size_t g_epilogue = 2;     // C16_NO_EPILOGUE=1 switches it off (measurements only)
+// restart; stop on the outermost machine, then start(); stop() directly on every other machine of the hierarchy (its own hidden state must be clean too)
+static bool g_epilogue = true;     // C16_NO_EPILOGUE=1 switches it off (measurements only)
 // Replay a call sequence on a fresh real hierarchy and a fresh reference, compare after every call.
 static EvalOut evaluate(int top, const std::vector<Op> &hist) {
   EvalOut out; out.trace_hash = 1469598103934665603ull;
@@ -451,16 +485,21 @@ static EvalOut evaluate(int top, const std::vector<Op> &hist) {
   auto canon = [&] {   // canonical state: all observers of every machine + flip-flop parities + ledger
     for (size_t k = 0; k < nn; k++) { out.canon += obs_real(k); out.canon += '|'; }
     for (size_t k = 0; k < nn; k++) for (int s = 1; s < 4; s++) for (int r = 0; r < 3; r++) out.canon += char('0' + (G.flip_real[k][s][r] & 1));
-    for (size_t k = 0; k < nn; k++) for (int s = 0; s < 4; s++) out.canon += char('0' + G.cnt[k][s]); };
-  for (size_t i = 0; i < hist.size() + g_epilogue; i++) {
+    for (size_t k = 0; k < nn; k++) for (int s = 0; s < 4; s++) out.canon += char('0' + G.cnt[k][s]);
+    for (size_t k = 0; k < nn; k++) out.canon += REF.init_fixed[k] ? 'F' : '-'; };
+  size_t nepi = g_epilogue ? 2 + 2 * (nn - 1) : 0; StateMachine *const top_m = m;
+  for (size_t i = 0; i < hist.size() + nepi; i++) {
     bool epi = i >= hist.size(); if (i == hist.size()) canon();
-    const Op &op = epi ? EPILOGUE[i - hist.size()] : hist[i]; int r1 = -1, r2 = -1; std::string defwhat;
+    size_t e = i - hist.size(); int tn = epi && e >= 2 ? 1 + (int)(e - 2) / 2 : 0;      // machine the call is made on
+    Op eop{!epi ? 0 : e == 0 ? RESTART : e == 1 ? STOP : (e & 1) ? STOP : START, -1};
+    const Op &op = epi ? eop : hist[i]; int r1 = -1, r2 = -1; std::string defwhat; m = G.sm[tn];
     bool was_running[16]; for (size_t k = 0; k < nn; k++) was_running[k] = REF.running[k];
     G.tr.clear(); G.reent = op.reent; G.in_restart = op.call == RESTART;
+    if (op.call == SETINIT) { r1 = r2 = 0; for (size_t k = 0; k < nn; k++) if (TAB[G.nodes[k].def].init_explicit >= 2 && !REF.running[k]) { SI(G.sm[k], 1); REF.init_fixed[k] = true; } }
     switch (op.call) { case START: r1 = m->start(); break; case RUN1: r1 = RUN(m, 1); break; case RUN2: r1 = RUN(m, 2); break; case STOP: m->stop(); break; case RESTART: r1 = m->restart(); break;
                        case DEFBAD: r1 = 0; for (size_t k = 0; k < nn && defwhat.empty(); k++) { defwhat = bad_defs(k); if (!defwhat.empty()) { r1 = 1; defwhat += std::string("-on-a-") + (REF.running[k] ? "running" : "stopped") + "-machine"; } } break; }
     G.in_restart = false; std::string t1; t1.swap(G.tr);
-    switch (op.call) { case START: r2 = REF.start(0); break; case RUN1: r2 = REF.run(0, 1); break; case RUN2: r2 = REF.run(0, 2); break; case STOP: REF.stop(0); break; case RESTART: REF.stop(0); r2 = REF.start(0); break;
+    switch (op.call) { case START: r2 = REF.start(tn); break; case RUN1: r2 = REF.run(tn, 1); break; case RUN2: r2 = REF.run(tn, 2); break; case STOP: REF.stop(tn); break; case RESTART: REF.stop(tn); r2 = REF.start(tn); break;
                        case DEFBAD: r2 = 0; break; }     // every one of them is rejected: nothing happens
     G.reent = -1; std::string t2; t2.swap(G.tr);
     std::string o1, o2; for (size_t k = 0; k < nn; k++) { o1 += obs_real(k); o1 += ' '; o2 += REF.obs(k); o2 += ' '; }
@@ -469,7 +508,7 @@ static EvalOut evaluate(int top, const std::vector<Op> &hist) {
       if (g_keep_trace) out.trace += step; }
     // ---- oracles
     std::string sig, bal;
-    bool top_stopped = !m->isRunning();
+    bool top_stopped = !top_m->isRunning() && !(tn > 0 && op.call == START);    // (a sub-machine started on its own in the epilogue is of course not yet exited)
     if (G.balance_viol.empty() && top_stopped && !ledger_zero(&bal)) G.balance_viol = "outermost machine is stopped with entered-but-not-exited states:" + bal;
     bool same = t1 == t2 && r1 == r2 && o1 == o2;
     if (!G.reent_viol.empty()) sig = G.reent_viol;
@@ -486,7 +525,7 @@ static EvalOut evaluate(int top, const std::vector<Op> &hist) {
       } else {
         // does the active chain of the real hierarchy end at a state whose sub-machine is stopped?
         int k = 0; bool stopped_sub = false;
-        while (true) { int c = G.sm[k]->currentState(); if (!G.sm[k]->isRunning() || c < 1) break; int sb = G.nodes[k].sub[c]; if (sb < 0) break; if (!G.sm[sb]->isRunning()) { stopped_sub = true; break; } k = sb; }
+        while (true) { int c = CUR(G.sm[k]); if (!G.sm[k]->isRunning() || c < 1 || c > 3) break; int sb = G.nodes[k].sub[c]; if (sb < 0) break; if (!G.sm[sb]->isRunning()) { stopped_sub = true; break; } k = sb; }
         if ((op.call == RUN1 || op.call == RUN2) && t1.empty() && r1 == 0 && stopped_sub) sig = "run-ignored-after-submachine-terminated";
         else {
           // suffix "-reentrant" only when the divergence lies in the inner calls themselves (traces agree once the !<result> marks are removed)
@@ -504,6 +543,7 @@ static EvalOut evaluate(int top, const std::vector<Op> &hist) {
                 size_t xo = x.find('('), yo = y.find('(');
                 if (x.substr(0, xo) != y.substr(0, yo)) { a += "-id"; b += "-id"; }
                 else if (x.substr(0, x.find(')')) != y.substr(0, y.find(')'))) { a += "-observers"; b += "-observers"; }
+                else if (anc_part(x) != anc_part(y)) { a += "-ancestor-observers"; b += "-ancestor-observers"; }
                 else { a += "-result"; b += "-result"; } }
               break; }
             p = pe + 1; q = qe + 1;
@@ -516,7 +556,7 @@ static EvalOut evaluate(int top, const std::vector<Op> &hist) {
     if (!sig.empty()) {
       std::string s0 = sig.substr(0, sig.find(' '));
       if (g_sigcount[s0] >= 3) { out.viol = s0; return out; }     // already printed three replays of this signature: count only
-      out.viol = sig + " machine=" + show_mach(TAB[top]) + " lane=" + lanes_text() + " calls=[" + show_hist(hist) + (g_epilogue ? " | epilogue: restart stop" : "") + "] diverges at call #" + std::to_string(i + 1) + " " + show_op(op) + (epi ? " (epilogue)" : "") +
+      out.viol = sig + " machine=" + show_mach(TAB[top]) + " lane=" + lanes_text() + " calls=[" + show_hist(hist) + (g_epilogue ? " | epilogue: restart stop, then start stop on each of the machines b,c,.. directly" : "") + "] diverges at call #" + std::to_string(i + 1) + " " + show_op(op) + (epi ? std::string(" (epilogue, on machine m") + char('a' + tn) + ")" : "") +
                  " REAL: " + t1 + "=> ret=" + std::to_string(r1) + " state(cur,last,next,Running/Stopped,Terminated per machine a,b,..)= " + o1 +
                  "REF: " + t2 + "=> ret=" + std::to_string(r2) + " state= " + o2 + (G.balance_viol.empty() ? "" : "BALANCE: " + G.balance_viol);
       return out;
@@ -534,23 +574,24 @@ int main(int argc, char **argv) {
   }
   size_t part = argc > 1 ? atoi(argv[1]) : 0, nparts = argc > 2 ? atoi(argv[2]) : 1, cap = argc > 3 ? atol(argv[3]) : 2000;
   size_t depth = argc > 4 ? atoi(argv[4]) : 5; DMAX = argc > 5 ? atoi(argv[5]) : 2;
-  const char *hashfile = argc > 6 && argv[6][0] != '-' ? argv[6] : nullptr; bool flat_only = argc > 7 && !strcmp(argv[7], "flat"), deep_only = argc > 7 && !strcmp(argv[7], "deep");
+  const char *hashfile = argc > 6 && argv[6][0] != '-' ? argv[6] : nullptr; bool flat_only = argc > 7 && !strcmp(argv[7], "flat"), deep_only = argc > 7 && !strcmp(argv[7], "deep"), share_only = argc > 7 && !strcmp(argv[7], "share");
   if (flat_only) DMAX = 1;
-  read_lanes(); if (getenv("C16_NO_EPILOGUE")) g_epilogue = 0;
+  read_lanes(); if (getenv("C16_NO_EPILOGUE")) g_epilogue = false;
   hx::install_crash_reporter("C16-crash");
   double deadline = hx::deadline_from_env(600);
 
   // ---- enumerate machines by weight until the cap is reached
   std::vector<size_t> sel; size_t complete_w = 0, sel_before_last = 0, last_level_total = 0; int w = 1;
-  for (; sel.size() < cap && w <= 12; w++) {
+  int wmax = share_only ? 7 : 12;     // (two states with one terminating sub-machine definition need weight 7; weight 8 is too large a table to filter)
+  for (; sel.size() < cap && w <= wmax; w++) {
     sel_before_last = sel.size(); size_t b = TAB.size(); gen_level(w); last_level_total = 0;
-    for (size_t i = b; i < TAB.size(); i++) { int fe = 0; first_event(TAB[i], fe); if (fe == 2) continue; if (deep_only && TAB[i].depth < 3) continue; last_level_total++; if (sel.size() < cap) sel.push_back(i); }
+    for (size_t i = b; i < TAB.size(); i++) { int fe = 0; first_event(TAB[i], fe); if (fe == 2) continue; if (deep_only && TAB[i].depth < 3) continue; if (share_only && !has_shared_sub((int)i)) continue; last_level_total++; if (sel.size() < cap) sel.push_back(i); }
     if (sel.size() - sel_before_last == last_level_total) complete_w = w;
   }
   int last_w = w - 1; double t_gen = hx::now_s();
   if (part == 0) {
     printf("@INFO enumeration took %.1fs, table of %zu machine definitions\n", t_gen - (deadline - (getenv("VERIF_DEADLINE_S") ? atof(getenv("VERIF_DEADLINE_S")) : 600)), TAB.size());
-    const char *what = deep_only ? "canonical machines of nesting depth 3" : "canonical machines";
+    const char *what = deep_only ? "canonical machines of nesting depth 3" : share_only ? "canonical machines in which two states have the same sub-machine definition" : "canonical machines";
     printf("@INFO lane%s: machines: %zu selected; weights 1..%zu complete; weight %d: %zu of %zu %s (nesting depth <= %d)\n", lanes_text().c_str(), sel.size(), complete_w, last_w, sel.size() - sel_before_last, last_level_total, what, DMAX);
     printf("@CAP lane%s: machine cap %zu: every one of the %s of weight <= %zu is selected; of weight %d only %zu of %zu (interleaved over all structural shapes); heavier machines (<=3 states, <=3 routes/state, depth <= %d) are not enumerated\n",
            lanes_text().c_str(), cap, what, complete_w, last_w, sel.size() - sel_before_last, last_level_total, DMAX);
@@ -564,6 +605,7 @@ int main(int argc, char **argv) {
   for (size_t j = part; j < sel.size() && !capped; j += nparts) {
     if (hx::now_s() > deadline) { capped = true; printf("@CAP part %zu/%zu: deadline reached before machine #%zu of %zu (weight %d)\n", part, nparts, j, sel.size(), (int)TAB[sel[j]].weight); break; }
     int top = (int)sel[j]; G.nodes.clear(); add_nodes(top, -1, 0); make_hooks();
+    std::vector<Op> mmenu = menu; for (auto &nd : G.nodes) if (TAB[nd.def].init_explicit >= 2) { mmenu.insert(mmenu.begin() + 6, Op{SETINIT, -1}); break; }   // only where a machine of the hierarchy cannot start
     bool is_flat = G.nodes.size() == 1; machines++; (is_flat ? flat : nested)++;
     std::string mtxt = show_mach(TAB[top]);
     std::unordered_set<std::string> seen; std::vector<std::vector<Op>> layer(1), next;
@@ -571,7 +613,7 @@ int main(int argc, char **argv) {
     std::vector<Op> lastnew; size_t d = 0;
     for (; d < depth && !layer.empty(); d++) {
       next.clear();
-      for (auto &h : layer) for (auto &op : menu) {
+      for (auto &h : layer) for (auto &op : mmenu) {
         std::vector<Op> c = h; c.push_back(op);
         hx::set_current(mtxt + " calls=[" + show_hist(c) + "]");
         bool want = hashes.size() + 1 == next_outcome || (samples < 3 && d + 1 == depth);
